@@ -634,6 +634,11 @@ def oracle_case(case, known=(), ceiling=servers.CEILING):
                 armed.add(k)
             if t in "azg" and k in armed:
                 in_hook.add(k)              # a worker stays inside its on_disconnect until `h`
+                cl = sess.clients.get(k)
+                if cl is not None:
+                    # go on only when that hook has been entered (the connection is closed by then: its number is free)
+                    servers.wait_for(lambda: sum(1 for w, peer, _i in sess.backend.hook_table()
+                                                 if w == "d" and peer == cl.peer) >= 1, ceiling)
             if t == "h":
                 in_hook.discard(k)
             if (t in "azh" or (t == "c" and tok[-2:] in (":r", ":b"))) and not in_hook:
